@@ -10,6 +10,10 @@ BASELINE = json.load(open('/root/.vp/BASELINE.json'))['cmd'].replace('--junitxml
 
 # id -> (category, technique, text, note, design_ref)
 TABLE = {
+ 'C14': ('exploration',
+         'bounded exhaustive enumeration of designs (every composition of repetitions, every row order / label sequence, channel counts incl. more channels than samples, all four estimators, dof forms, single / list / stack inputs) on the real noise estimators, judged by an explicit-loop reference and structural oracles',
+         'For conditions 1..3 and every composition of the repetition counts with total <= 7, P in {1,2,3,5}, every distinct label sequence (thorough: every row permutation) for <= 5 rows, methods full / diag / shrinkage_eye / shrinkage_diag, dof None / scalar / list / ndarray, single inputs, lists of two and 3-D stacks, through cov_/prec_from_residuals, _from_unbalanced and (balanced designs) _from_measurements: full == pooled residual covariance with the stated dof, diag its diagonal, shrinkage estimates symmetric convex combinations with lambda in [0,1] recovered from the output, PSD / PD when shrinkage is active, measurement == unbalanced on balanced designs, one estimate per list element with that element\'s dof, inputs bit-identical, prec @ cov == I; values: all matrices over {0,1,2} for small n*P plus fixed fills.',
+         'reference in mc/ref/c14_ref.py; undefined cases (dof <= 0, singular covariance for the precision) excluded and counted', '4/C14'),
  'C02': ('exploration',
          'bounded exhaustive enumeration of fold-balanced designs (all row orders of small designs, all fold relabelings, all channel permutations, label types, precision forms) on the real crossnobis / poisson_cv code, judged by the double-loop definition over ordered fold pairs',
          'Fold-balanced designs K,M in {2,3} (thorough 4) x R in {1,2} x P in {1,2,3}: all n! row orders for <= 6 rows (structured orders and all adjacent swaps above), ALL M! fold relabelings x ALL P! channel permutations (precision permuted alike), int / string / one-character labels, precision none / one matrix / one per fold, remove_mean, explicit and default fold descriptors, a many-folds family (10-12 folds); values from complete small alphabets and fixed fills. Each unordered label pair must equal the mean over ordered pairs of distinct folds of the between-fold products (poisson analogue on prior-regularised rates); invariances are checked variant against parent; scaling one fold must act linearly (no within-fold product) and perturbing any single fold must change the result (every fold contributes).',
